@@ -156,6 +156,10 @@ class Interface(ModelElement):
         node_id = self.topo.graph_model.find_child_connection_point_by_name(parent_node_id=self.node_id,
                                                                             iname=name)
 
+        # if the sub-interface is connected to a service, remove the service-side port first
+        child = Interface(name=name, node_id=node_id, topo=self.topo)
+        for peer in child.get_peers(itype=InterfaceType.ServicePort) or []:
+            self.topo.graph_model.remove_cp_and_links(node_id=peer.node_id)
         self.topo.graph_model.remove_cp_and_links(node_id=node_id, delete_parent=False)
 
     def __list_interfaces(self) -> ViewOnlyDict:
